@@ -2,7 +2,7 @@
    Go source (Gen/MsgTypes.v, Gen/GuardTable.v, Gen/WasmTable.v) and the generic guard-list
    semantics (Model/Guards.v, Proofs/GuardsProofs.v).  A removed or moved owner check, a new
    position message, a changed wasm comparison flips one of the [vm_compute] checks below. *)
-From Coq Require Import String List ZArith Bool.
+From Coq Require Import String List ZArith Bool Arith.
 From Comdex Require Import Lib.Base Lib.Atomic Model.Guards Model.GuardsCheck Proofs.GuardsProofs Proofs.GuardsCheckProofs
   Gen.GuardTable Gen.MsgTypes Gen.WasmTable.
 Import ListNotations.
@@ -80,6 +80,38 @@ Print Assumptions c12_rejected_noop.
 Theorem c12_registry_closed : c12_registry_check = true.
 Proof. vm_compute. reflexivity. Qed.
 Print Assumptions c12_registry_closed.
+
+(* closed-world classification: every registered message of a DeFi module is exactly one of
+   owner-guarded / signer-keyed (position_msgs), exempt with a reason (owner_exempt), naming no position
+   of any user with a reason (no_position_msgs), admin (kill switch), or without a msgServer method; and
+   every name in the reviewed lists is a registered message *)
+Theorem c12_classification_closed :
+  (forall m, In m msg_types -> mem (mt_module m) defi_modules = true -> msg_classes m = 1%nat) /\
+  (forall n, In n (map fst no_position_msgs ++ admin_msgs ++ map fst owner_exempt ++ signer_keyed_msgs) ->
+             exists m, In m msg_types /\ mt_qname m = n).
+Proof.
+  assert (K : c12_classified_check = true) by (vm_compute; reflexivity).
+  unfold c12_classified_check in K. apply andb_prop in K. destruct K as [K1 K2]. split.
+  - intros m Hm Hd. rewrite forallb_forall in K1. specialize (K1 m Hm). rewrite Hd in K1. cbn in K1.
+    apply Nat.eqb_eq. exact K1.
+  - intros n Hn. rewrite forallb_forall in K2. specialize (K2 n Hn). apply existsb_exists in K2.
+    destruct K2 as [m [Hm E]]. exists m. split; [exact Hm|]. apply String.eqb_eq in E. exact E.
+Qed.
+Print Assumptions c12_classification_closed.
+
+(* every msgServer method of a DeFi module is in the list one of the two authority matrices must send
+   (runner coverage checks: an un-sent handler is a reported mismatch); the kill switch has its own cases *)
+Theorem c12_matrices_cover_registry : forall m, In m msg_types -> mem (mt_module m) defi_modules = true ->
+  mt_handler m <> "" -> mem (mt_qname m) admin_msgs = false ->
+  mem (mt_handler m) x_matrix_handlers = true \/ mem (mt_handler m) base_matrix_handlers = true.
+Proof.
+  assert (K : c12_matrix_cover_check = true) by (vm_compute; reflexivity).
+  intros m Hm Hd Hh Ha. unfold c12_matrix_cover_check in K. rewrite forallb_forall in K. specialize (K m Hm).
+  rewrite Hd, Ha in K. cbn in K.
+  destruct (String.eqb (mt_handler m) "") eqn:E; [apply String.eqb_eq in E; contradiction|]. cbn in K.
+  apply orb_prop in K. exact K.
+Qed.
+Print Assumptions c12_matrices_cover_registry.
 
 (* custom contract-to-chain messages: for every variant, on each of the two named networks, an
    accepted message was sent by the contract designated for that variant.
@@ -164,6 +196,18 @@ Example c12_exempt_unguarded :
   forallb (fun m => negb (has_owner_guard m)) (filter (fun m => names_position m && is_exempt m) msg_types) = true /\
   length (filter (fun m => names_position m && is_exempt m) msg_types) = 7%nat.
 Proof. vm_compute. split; reflexivity. Qed.
+
+(* the classification is not vacuous: 36 messages name no position, 23 handlers belong to the extended
+   matrix, 49 to the plain one; a liquidation by a stranger may change the named owner's records, a bid may not *)
+Example c12_classification_nonvacuous :
+  length no_position_msgs = 36%nat /\ length x_matrix_handlers = 23%nat /\ length base_matrix_handlers = 49%nat /\
+  holds_C12_x "liquidationsV2.MsgLiquidateInternalKeeper" false false true true true false = true /\
+  holds_C12_x "auction.MsgPlaceDutchBid" false false true true true false = false /\
+  holds_C12_x "auction.MsgPlaceDutchBid" false false true true false true = false /\
+  holds_C12_x "auctionsV2.MsgCancelLimitBid" false true true true true false = false /\
+  holds_C12_x "auctionsV2.MsgCancelLimitBid" false true true true false false = true /\
+  holds_C12_x "auctionsV2.MsgCancelLimitBid" false false true true false false = false.
+Proof. vm_compute. repeat split; reflexivity. Qed.
 
 (* a concrete run: vault withdraw with a mismatching owner returns "unauthorized" (code 1) on the
    untouched store, and succeeds for the owner *)
